@@ -124,6 +124,11 @@ func genC19(t *rapid.T) *C19Case {
 		if rapid.Bool().Draw(t, "ownerswap") {
 			a.Labels, b.Labels = b.Labels, a.Labels
 		}
+		if rapid.IntRange(0, 2).Draw(t, "ownerctl") == 0 {
+			// the controller itself is in the input next to one of its pods (its own pods come from the template)
+			a.Kind = "ReplicaSet"
+			a.Replicas = rapid.IntRange(-1, 2).Draw(t, "ownerctlreps")
+		}
 		da := workloadDocs(&World{}, &a)[0]
 		db := workloadDocs(&World{}, &b)[0]
 		yb := strings.Replace(docYAML(db), "name: own-x0z", "name: own-x1z", 1)
